@@ -341,6 +341,7 @@ def run(ctx):
     check_shapes(ctx, quick)
     check_data_accuracy(ctx, quick)
     check_large(ctx, quick)
+    check_long_batches(ctx, quick)
     check_huge(ctx, quick)
 
 
@@ -502,6 +503,28 @@ def check_shapes(ctx, quick):
                     bad.append('get_and_grad [%s]' % tag)
         for b_ in bad:
             ctx.violation('algebra:' + b_.split('(')[0].split(' [')[0], 'shape %s ranks %s: %s differs from the definition / the dense reference' % (n, r, b_), case={'n': n, 'r': r})
+
+
+def check_long_batches(ctx, quick):
+    """Batches of multi-indices far longer than the tensor has entries (lengths around powers of two, where a routine that
+    works in blocks changes its path): every row is an entry of the small dense tensor, for get_many, batched get and
+    accuracy_on_data."""
+    rng = np.random.default_rng(ctx.seed + 27)
+    for m in ([1000, 4097, 65543, 131072 + 3] if quick else [1000, 4097, 8191, 32769, 65535, 65536, 65537, 65543, 131075, 262144 + 17, 1000003]):
+        n = [int(x) for x in rng.integers(2, 5, size=3)]
+        Y = teneva.rand(n, 2, seed=int(rng.integers(1 << 30)))
+        Fd = teneva.full(Y)
+        I = np.stack([rng.integers(0, k, size=m) for k in n], axis=1)
+        ref = Fd[tuple(I.T)]
+        sc = np.abs(Fd).max()
+        ctx.case(key=('long-batch', m, n), nontrivial=m > 65536)
+        y1 = np.asarray(teneva.get_many(Y, I))
+        y2 = np.asarray(teneva.get(Y, I))
+        ok = y1.shape == (m,) and y2.shape == (m,) and np.abs(y1 - ref).max() <= 1e-12 * sc and np.abs(y2 - ref).max() <= 1e-12 * sc
+        ctx.check(ok, 'algebra:get_many', 'get_many / get on a batch of %d multi-indices (shape %s): %d entries differ from the dense tensor (first at row %s)'
+                  % (m, n, int((np.abs(y1 - ref) > 1e-12 * sc).sum()) if y1.shape == (m,) else -1, (np.flatnonzero(np.abs(y1 - ref) > 1e-12 * sc)[:1].tolist() if y1.shape == (m,) else '?')))
+        e_ = float(teneva.accuracy_on_data(Y, I, ref + 0.))
+        ctx.check(e_ <= 1e-12, 'algebra:accuracy_on_data', 'accuracy_on_data of a tensor on %d of its own entries is %.3g' % (m, e_))
 
 
 def check_large(ctx, quick):
